@@ -230,7 +230,7 @@ fn main() {
     let model = Model::build(&spec).expect("fx fixture is collision-free");
     let ix = Index::new(&model, true);
     h.assume("buffer sizes for process are the instantiated set 8..4096; a message is padded with trailing blanks to fill the buffer exactly in part of the cases");
-    let cases = h.tier.pick(60_000, 12_000_000);
+    let cases = h.tier.pick(150_000, 12_000_000);
     h.check(
         "c08.payloads",
         "proptest tapes -> 1-3 valid messages of 1-4 units over the fx fixture (path-dependent relative headers; string and block parameters at argument positions 1..10, payload bytes weighted towards newline ; , : # quotes and white space, blocks over all 256 byte values, zero-padded block lengths) -> (1) run whole with a recording writer must match the reference interpreter exactly (handlers, verbatim payloads, responses, no error); (2) process::<N> with N >= longest message under 4 schedules (boundary after every payload newline, single bytes, 2 random) and Pending scripts must match the same prediction; (3) the twin with payload newlines replaced runs the same handlers; non-trivial = payload newline in a unit after the first, or newline plus separator/quote in payloads",
